@@ -314,11 +314,16 @@ func genExpr(r *rand.Rand, quartz, allowH bool) string {
 		}
 	}
 	e := strings.Join(f, " ")
+	// the year field: mostly '*', sometimes bounded - also to years that are over (the expression then has no next time)
+	year := "*"
+	if r.Intn(6) == 0 {
+		year = []string{"2040", "2039", "2038-2039", "2040-2041", "2041", "2039,2040"}[r.Intn(6)]
+	}
 	switch r.Intn(5) {
 	case 0:
-		e = e + " *" // 6 fields: year last
+		e = e + " " + year // 6 fields: year last
 	case 1, 2:
-		e = genField(r, 0, 59, allowH) + " " + e + " *" // 7 fields: seconds first, year last
+		e = genField(r, 0, 59, allowH) + " " + e + " " + year // 7 fields: seconds first, year last
 		if r.Intn(3) == 0 {
 			e = "* " + e[strings.Index(e, " ")+1:]
 		}
